@@ -298,10 +298,10 @@ Qed.
 
 Lemma expressible_v4_suitable : forall a, expressible V4 a = true -> c_is_suitable_for_compression (conc a) = true.
 Proof.
-  intros a H. unfold expressible in H. unfold c_is_suitable_for_compression, c_num_retained, c_is_estimation_mode, conc.
-  cbn [ce_entries ce_theta ce_ordered]. unfold cnt_of, est in H. change S_MAX_THETA with MAX_THETA in H.
-  apply andb_prop in H as [H H3]. apply andb_prop in H as [H H2]. apply andb_prop in H as [H0 H1].
-  rewrite H0, H1, H3. reflexivity.
+  intros a. unfold expressible, c_is_suitable_for_compression, c_num_retained, c_is_estimation_mode, conc, cnt_of, est.
+  cbn [ce_entries ce_theta ce_ordered].
+  destruct (a_ordered a); [|discriminate]. destruct (N.of_nat (length (a_entries a)) =? 0); [discriminate|].
+  destruct (a_empty a); [discriminate|]. cbn [negb andb]. intros H. exact H.
 Qed.
 
 Theorem spec_roundtrip_v4 : forall sh a, abs_okb a = true -> expressible V4 a = true ->
@@ -379,4 +379,123 @@ Proof.
     rewrite Ec, Ed. unfold cnt_of. rewrite Nat2N.id.
     rewrite has_true by (rewrite pack_stream_length, Hdl; lia). cbn [negb].
     rewrite Hfields. apply tabs_eq; try congruence. lia.
+Qed.
+
+(* ====================== the writers conform (C12) ====================== *)
+Theorem writer_conforms : forall sh c, c_wf sh c -> dec_spec sh (c_serialize c) = Some (abs_of c).
+Proof.
+  intros sh c Hwf. rewrite (model_v3_is_spec sh c Hwf). apply spec_roundtrip_v3. eapply wf_abs_ok; eauto.
+Qed.
+
+Lemma suitable_expressible : forall sh c, c_wf sh c -> c_is_suitable_for_compression c = true -> expressible V4 (abs_of c) = true.
+Proof.
+  intros sh c Hwf. pose proof (wf_empty _ _ Hwf) as Hemp.
+  unfold c_is_suitable_for_compression, expressible, abs_of, cnt_of, est, c_num_retained, c_is_estimation_mode.
+  cbn [a_entries a_theta a_ordered a_empty].
+  destruct (ce_ordered c); [|discriminate]. destruct (N.of_nat (length (ce_entries c)) =? 0) eqn:E0; [discriminate|].
+  cbn [negb andb]. intros H.
+  destruct (ce_empty c) eqn:Ee.
+  - destruct (Hemp eq_refl) as [E _]. rewrite E in E0. discriminate.
+  - cbn [negb andb]. exact H.
+Qed.
+
+Theorem compressed_writer_conforms : forall sh c bs, c_wf sh c -> c_serialize_compressed c = Ok bs ->
+  dec_spec sh bs = Some (abs_of c).
+Proof.
+  intros sh c bs Hwf H. unfold c_serialize_compressed in H.
+  destruct (c_is_suitable_for_compression c) eqn:E.
+  - rewrite (model_v4_is_spec sh c Hwf E) in H. inversion H. subst.
+    apply spec_roundtrip_v4; [eapply wf_abs_ok; eauto|eapply suitable_expressible; eauto].
+  - inversion H. subst. now apply writer_conforms.
+Qed.
+
+(* ====================== the reader reads every variant (C13) ====================== *)
+Definition seed_ok (sh : N) (a : tabs) : Prop := a_empty a = false -> a_seed_hash a = sh.
+
+Lemma conc_wf : forall sh a, abs_okb a = true -> seed_ok sh a -> c_wf sh (conc a).
+Proof. intros. now apply abs_ok_wf. Qed.
+
+Lemma abs_of_conc_serialize : forall a, abs_of (conc a) = a.
+Proof. exact abs_conc. Qed.
+
+Theorem reads_v3_plain : forall sh a, abs_okb a = true -> seed_ok sh a ->
+  c_deserialize sh (enc_v3 false a) = Ok (conc a).
+Proof.
+  intros sh a Hok Hs. pose proof (conc_wf sh a Hok Hs) as Hwf.
+  rewrite <- (abs_conc a) at 1. rewrite <- (model_v3_is_spec sh _ Hwf). now apply roundtrip_v3.
+Qed.
+
+Theorem reads_v4 : forall sh a, abs_okb a = true -> seed_ok sh a -> expressible V4 a = true ->
+  c_deserialize sh (enc_v4 a) = Ok (conc a).
+Proof.
+  intros sh a Hok Hs Hex. pose proof (conc_wf sh a Hok Hs) as Hwf.
+  pose proof (expressible_v4_suitable a Hex) as Hsuit.
+  destruct (roundtrip_v4 sh (conc a) Hwf Hsuit) as [bs [Hser Hde]].
+  rewrite (model_v4_is_spec sh _ Hwf Hsuit) in Hser. inversion Hser. subst bs. rewrite abs_conc in Hde. exact Hde.
+Qed.
+
+(* the SINGLE_ITEM flag (bit 5) that Java sets on one-entry sketches is ignored by the reader *)
+Lemma v3_flags_irrelevant : forall sh pre b3 b4 f1 f2 rest,
+  flag_set f1 (zN GenTheta.FLAGS_IS_EMPTY) = flag_set f2 (zN GenTheta.FLAGS_IS_EMPTY) ->
+  flag_set f1 (zN GenTheta.FLAGS_IS_ORDERED) = flag_set f2 (zN GenTheta.FLAGS_IS_ORDERED) ->
+  c_deserialize sh (pre :: 3 :: 3 :: b3 :: b4 :: f1 :: rest) = c_deserialize sh (pre :: 3 :: 3 :: b3 :: b4 :: f2 :: rest).
+Proof.
+  intros sh pre b3 b4 f1 f2 rest He Ho. unfold c_deserialize.
+  do 3 (rewrite rd_cons; cbn [obind]). do 3 (rewrite rd_cons; cbn [obind]).
+  destruct (negb (3 =? _)); [reflexivity|]. destruct (negb (_ && _)); [reflexivity|].
+  change (3 =? 1) with false. change (3 =? 2) with false. change (3 =? 3) with true. cbv iota.
+  unfold deserialize_v3.
+  change (b3 :: b4 :: f1 :: rest) with ([b3; b4] ++ f1 :: rest). change (b3 :: b4 :: f2 :: rest) with ([b3; b4] ++ f2 :: rest).
+  rewrite !(rd_app 2 [b3; b4]) by reflexivity. cbn [obind]. rewrite !rd_cons. cbn [obind].
+  rewrite He, Ho. reflexivity.
+Qed.
+
+Theorem reads_v3 : forall sh sf a, abs_okb a = true -> seed_ok sh a ->
+  c_deserialize sh (enc_v3 sf a) = Ok (conc a).
+Proof.
+  intros sh sf a Hok Hs. rewrite <- (reads_v3_plain sh a Hok Hs).
+  unfold enc_v3. cbn [app]. change S_FAMILY_THETA with 3.
+  destruct (spec_flags_decode (a_empty a) (a_ordered a) (sf && is_single a)) as [_ [_ [E1 O1]]].
+  destruct (spec_flags_decode (a_empty a) (a_ordered a) (false && is_single a)) as [_ [_ [E2 O2]]].
+  apply v3_flags_irrelevant; congruence.
+Qed.
+
+Lemma expressible_12 : forall a, a_ordered a && Bool.eqb (a_empty a) ((cnt_of a =? 0) && negb (est a)) = true ->
+  a_ordered a = true /\ a_empty a = ((cnt_of a =? 0) && negb (est a)).
+Proof. intros a H. apply andb_prop in H as [H1 H2]. apply Bool.eqb_prop in H2. auto. Qed.
+
+Theorem reads_v1 : forall sh a, abs_okb a = true -> expressible V1 a = true -> a_seed_hash a = sh ->
+  c_deserialize sh (enc_v1 a) = Ok (conc a).
+Proof.
+  intros sh a Hok Hex Hseed. destruct (expressible_12 a Hex) as [Ho Hem].
+  destruct (abs_ok_parts a Hok) as [Hent [Hth0 [Hth [Hemp [Hord [Hsd Hcnt]]]]]].
+  unfold enc_v1, c_deserialize. cbn [app]. change S_FAMILY_THETA with 3.
+  do 3 (rewrite rd_cons; cbn [obind]).
+  change (negb (3 =? zN GenCodec.FAMILY_THETA_ID)) with false. cbv iota.
+  change (negb ((zN GenCodec.FAMILY_THETA_MIN_PRE_LONGS <=? 3) && (3 <=? zN GenCodec.FAMILY_THETA_MAX_PRE_LONGS))) with false. cbv iota.
+  change (1 =? 1) with true. cbv iota. unfold deserialize_v1.
+  rewrite rd_cons; cbn [obind].
+  change (0 :: 0 :: 0 :: 0 :: ?l) with ([0; 0; 0; 0] ++ l). rewrite (rd_app 4 [0; 0; 0; 0]) by reflexivity. cbn [obind].
+  rewrite rd_le by exact Hcnt. cbn [obind].
+  change ([0; 0; 0; 0] ++ ?l) with ([0; 0; 0; 0] ++ l). rewrite (rd_app 4 [0; 0; 0; 0]) by reflexivity. cbn [obind].
+  rewrite rd_le by (change (256 ^ N.of_nat 8) with M64; unfold M64, S_MAX_THETA in *; lia). cbn [obind].
+  unfold ensure_theta. change MAX_THETA with S_MAX_THETA.
+  destruct (N.eqb_spec (a_theta a) 0); [lia|]. destruct (N.ltb_spec S_MAX_THETA (a_theta a)); [lia|]. cbn [orb obind].
+  unfold est in Hem.
+  destruct (N.eqb_spec (cnt_of a) 0) as [E0|N0]; destruct (N.eqb_spec (a_theta a) S_MAX_THETA) as [Et|Nt]; cbn [andb].
+  - rewrite Et, N.ltb_irrefl in Hem. cbn in Hem. destruct (Hemp Hem) as [Ees _].
+    unfold conc. rewrite Ees, Hem, Ho, Hseed, Et. reflexivity.
+  - destruct (N.ltb_spec (a_theta a) S_MAX_THETA) as [_|]; [|lia]. cbn in Hem.
+    assert (Ees : a_entries a = []) by (unfold cnt_of in E0; destruct (a_entries a); [reflexivity|cbn [length] in E0; lia]).
+    unfold entry_bytes. rewrite E0, Ees. cbn [flat_map]. unfold read_entries. cbn [length].
+    change (N.of_nat 0 / 8 <? 0) with false. cbv iota. cbn [N.to_nat read_hashes obind ensure_ordered ascending_b].
+    unfold conc. rewrite Ees, Hem, Ho, Hseed. reflexivity.
+  - rewrite andb_false_l in Hem. unfold entry_bytes, cnt_of.
+    rewrite read_entries_flat; [|unfold M64, S_MAX_THETA in *; lia|exact Hent]. cbn [obind].
+    unfold ensure_ordered. rewrite <- asc_ascending_b, (Hord Ho). cbn [obind].
+    unfold conc. rewrite Hem, Ho, Hseed. reflexivity.
+  - rewrite andb_false_l in Hem. unfold entry_bytes, cnt_of.
+    rewrite read_entries_flat; [|unfold M64, S_MAX_THETA in *; lia|exact Hent]. cbn [obind].
+    unfold ensure_ordered. rewrite <- asc_ascending_b, (Hord Ho). cbn [obind].
+    unfold conc. rewrite Hem, Ho, Hseed. reflexivity.
 Qed.
